@@ -49,7 +49,8 @@ def kind_sexpr(k):
 class Check:
     prop = 'C17'
     theorems = ['C17_roundtrip', 'C17_lent_list', 'C17_roundtrip_all', 'C17_roundtrip_zip', 'onceSpec_wrap', 'onceSpecList_cons',
-                'C17_once', 'C17_once_all', 'C17_once_zip', 'C17_spent_stays_spent']
+                'C17_once', 'C17_once_all', 'C17_once_zip', 'C17_spent_stays_spent', 'C17_assigned_kind_fits',
+                'C17_return_type_roundtrip', 'C17_return_type_once']
 
     def rule(self):
         return ("every method of harness/src/outputs_trait.rs (owned, &T, &'static T, Option<&T>, Result<&T,E>, Vec<&T>, "
@@ -62,10 +63,13 @@ class Check:
 
     def run(self, tier, seed, replay=None):
         rep = engine.Report(self.prop, tier, seed)
-        rep.assumptions = ["which OutputKind a return type gets is taken from the real macro, not modelled; types the macro or the trait system rejects are outside the property",
+        rep.assumptions = ["which OutputKind a return type gets is modelled (Model/Codegen/OutputKind.lean) and compared token for token with the real macro on generated return types; types the macro or the trait system rejects are outside the property",
                            "equality of leaves is by value; 'borrowed leaves point into the mock' is guaranteed by the types (&'u T borrowed from &'u Unimock) and not re-checked at run time"]
         engine.lean_obligations(self.prop, self.theorems, rep, thorough=(tier == 'thorough'))
         self.explore(rep, only_paths=None)
+        if not replay:
+            from .. import kindcheck
+            kindcheck.report(rep, tier, seed, self.prop)
         return rep.finish()
 
     def explore(self, rep, only_paths=None, merge=False, prop=None):
